@@ -40,6 +40,14 @@ def generate(tier, seed):
         ws = ['"%s"' % "".join(rng.choice("abcé ") for _ in range(rng.randint(0, 3))) for _ in range(n)]
         l = "(" + " ".join(ws) + ")"
         reqs.append(["(setq l '%s)" % l, "(sort l %s)" % rng.choice(["'string<", "'string>", "#'string-lessp"]), "l"])
+    for _ in range(80 if tier == "quick" else 1500):
+        n = rng.randint(1, 8)
+        xs = [rng.randint(0, 5) for _ in range(n)]
+        tl = "(list " + " ".join(map(str, xs)) + ")"
+        p = rng.choice(["'<", "'>", "(lambda (a b) (< a b))", "(lambda (a b) nil)", "(lambda (a b) t)"])
+        arg = rng.choice(["(cons 5 tail)", "(cons 9 (cons 0 tail))", "(cdr tail)", "(nthcdr 2 tail)", "(append '(7 1) tail)", "(append tail nil)",
+                          "(let ((tmp (cons 3 tail))) tmp)", "(mapcar '1+ tail)", "`(4 ,@tail)", "`(4 . ,tail)", "(funcall (lambda () (cons 2 tail)))"])
+        reqs.append(["(setq tail %s)" % tl, "(setq keep tail)", "(sort %s %s)" % (arg, p), "tail", "(eq keep tail)", "(sort %s %s)" % (arg, p), "tail"])
     # erroring predicate at the k-th call
     for n in [2, 3, 5, 8]:
         xs = [rng.randint(0, 3) for _ in range(n)]
